@@ -81,4 +81,11 @@ PROPS = {
                                         "int64 overflow not modelled (small ranges); Allocate_inRange arguments non-negative (a negative argument yields a negative Go remainder: outside the property, see DESIGN G1)"],
         rule="all op sequences up to depth 5 (thorough 6, sampled beyond depth 3 in quick) over ranges of size 1..3 (thorough 4) at three minimum values, alphabet = allocate / free of every id in and just outside the range / range allocations; plus random histories of up to 40 ops on ranges up to 12; non-trivial = distinct history executed",
     ),
+    "C16": dict(
+        level="proof", modules=["NasVerif.Props.C16"], parts=[],
+        streams=[("pco", 1500, 15000)], oracle="C16",
+        trusted_base=TB_COMMON[:1] + ["hand-written Model/Pco.lean mirrors PSI.go, PDUSessionReactivationResultErrorCause.go and the Marshal/UnMarshal state machine of ProtocolConfigurationOptions.go (binary.Read on a bytes.Reader modelled as list parsing); tied by the correspondence run",
+                                        "the Add* convenience builders of ProtocolConfigurationOptions.go (net.IP handling) are not modelled"],
+        rule="all 65 536 PSI bitmaps in both directions (exhaustive); generated unit lists (ids incl. 16-bit extremes, contents 0..255 octets, consistent and inconsistent lengths); parse inputs: exhaustive 1-2 octets, sampled 3-5, valid encodings truncated at random points, random bytes; non-trivial = distinct op",
+    ),
 }
